@@ -50,15 +50,24 @@ Theorem C17_rrt_lambda_true : forall k r lam qo sq iso o t l q,
   q = match qo with Some q => q | None => o_randint o end.
 Proof. exact rrt_lambda_true. Qed.
 
-(* table_walk_through on a table over the full key set (as random_rule_table returns): always
-   terminates normally — the loop's own bound `attempts < len(rule_table)` is sufficient fuel *)
-Theorem C17_twt_terminates : forall t lam k r q sq iso cs, 2 <= k -> map fst t = states k (2 * r + 1) ->
-  exists t' l', table_walk_through t lam k r q sq iso cs = Ok (Some (t', l')).
-Proof. exact twt_terminates. Qed.
+(* ---- table_walk_through.  Hypotheses on the table: its keys are distinct (it is a dict) and are exactly the
+   k-colour strings of length 2r+1 - the key SET, in ANY order (Proofs/RuleTablesProofs.v proves the same
+   statements from even less: `closed_keys`, i.e. distinct keys and, with the isotropic flag only, closure
+   of the key set under reversal).  C17_states_full_keys: what random_rule_table returns is one instance. *)
+Theorem C17_states_full_keys : forall k r (t : table), 2 <= k -> map fst t = states k (2 * r + 1) ->
+  NoDup (map fst t) /\ (forall s, In s (map fst t) <-> (length s = 2 * r + 1 /\ Forall (fun d => d < k) s)).
+Proof. exact states_full_keys. Qed.
 
-(* keeps the key list, the value range, and - given on entry, flag on - both constraints *)
-Theorem C17_twt_preserves : forall t lam k r q sq iso cs t' l', 2 <= k -> map fst t = states k (2 * r + 1) ->
-  table_walk_through t lam k r q sq iso cs = Ok (Some (t', l')) ->
+(* always terminates normally - the loop's own bound `attempts < len(rule_table)` is sufficient fuel *)
+Theorem C17_twt_terminates : forall t lam k r q sq iso cs, 2 <= k -> NoDup (map fst t) ->
+  (forall s, In s (map fst t) <-> (length s = 2 * r + 1 /\ Forall (fun d => d < k) s)) ->
+  exists t' l', table_walk_through t lam k r q sq iso cs = Ok (Some (t', l')).
+Proof. exact twt_terminates_full. Qed.
+
+(* keeps the key list (hence the key set and its order), the value range, and - given on entry, flag on - both constraints *)
+Theorem C17_twt_preserves : forall t lam k r q sq iso cs, 2 <= k -> NoDup (map fst t) ->
+  (forall s, In s (map fst t) <-> (length s = 2 * r + 1 /\ Forall (fun d => d < k) s)) ->
+  forall t' l', table_walk_through t lam k r q sq iso cs = Ok (Some (t', l')) ->
   map fst t' = map fst t /\
   ((0 <= q < Z.of_nat k)%Z -> Forall (fun v => (0 <= v < Z.of_nat k)%Z) (map snd t) ->
      Forall (fun v => (0 <= v < Z.of_nat k)%Z) (map snd t')) /\
@@ -68,19 +77,20 @@ Theorem C17_twt_preserves : forall t lam k r q sq iso cs t' l', 2 <= k -> map fs
   (iso = true ->
      (forall s, In s (map fst t) -> In (rev s) (map fst t) -> lookup (rev s) t = lookup s t) ->
      (forall s, In s (map fst t') -> In (rev s) (map fst t') -> lookup (rev s) t' = lookup s t')).
-Proof. exact twt_preserves. Qed.
+Proof. exact twt_preserves_full. Qed.
 
 (* lambda never moves away from the target: from above it only decreases, from below it only increases *)
-Theorem C17_twt_monotone : forall t lam k r q sq iso cs t' l', 2 <= k -> map fst t = states k (2 * r + 1) ->
-  table_walk_through t lam k r q sq iso cs = Ok (Some (t', l')) ->
+Theorem C17_twt_monotone : forall t lam k r q sq iso cs, 2 <= k -> NoDup (map fst t) ->
+  (forall s, In s (map fst t) <-> (length s = 2 * r + 1 /\ Forall (fun d => d < k) s)) ->
+  forall t' l', table_walk_through t lam k r q sq iso cs = Ok (Some (t', l')) ->
   ((lam <= actual_lambda k r q t)%Q ->
      qcount q t <= qcount q t' /\ (actual_lambda k r q t' <= actual_lambda k r q t)%Q) /\
   ((actual_lambda k r q t <= lam)%Q ->
      qcount q t' <= qcount q t /\ (actual_lambda k r q t <= actual_lambda k r q t')%Q).
-Proof. exact twt_monotone. Qed.
+Proof. exact twt_monotone_full. Qed.
 
-(* and every single perturbation changes the quiescent count strictly in the loop's direction *)
-Theorem C17_twt_step_monotone : forall (t : table) k r q sq iso cs t' cs', 2 <= k -> map fst t = states k (2 * r + 1) ->
+(* and every single perturbation changes the quiescent count strictly in the loop's direction (any dict) *)
+Theorem C17_twt_step_monotone : forall (t : table) k q sq iso cs t' cs', NoDup (map fst t) ->
   (dec_body q sq iso t cs = Ok (Cont t' cs') -> qcount q t < qcount q t') /\
   (inc_body k q sq iso t cs = Ok (Cont t' cs') -> qcount q t' < qcount q t).
 Proof. exact twt_step_monotone. Qed.
@@ -88,8 +98,9 @@ Proof. exact twt_step_monotone. Qed.
 (* on exit lambda has reached or crossed the target - and had not before the last perturbation - or
    no admissible entry remains; the `attempts` bound never binds first (when it binds, no admissible
    entry is left).  On target at entry: nothing changes. *)
-Theorem C17_twt_stop : forall t lam k r q sq iso cs t' l', 2 <= k -> map fst t = states k (2 * r + 1) ->
-  table_walk_through t lam k r q sq iso cs = Ok (Some (t', l')) ->
+Theorem C17_twt_stop : forall t lam k r q sq iso cs, 2 <= k -> NoDup (map fst t) ->
+  (forall s, In s (map fst t) <-> (length s = 2 * r + 1 /\ Forall (fun d => d < k) s)) ->
+  forall t' l', table_walk_through t lam k r q sq iso cs = Ok (Some (t', l')) ->
   ((actual_lambda k r q t == lam)%Q -> t' = t) /\
   ((lam < actual_lambda k r q t)%Q ->
      ((actual_lambda k r q t' <= lam)%Q \/ adm_dec q sq t' = []) /\
@@ -97,7 +108,35 @@ Theorem C17_twt_stop : forall t lam k r q sq iso cs t' l', 2 <= k -> map fst t =
   ((actual_lambda k r q t < lam)%Q ->
      ((lam <= actual_lambda k r q t')%Q \/ adm_inc q sq t' = []) /\
      (t' = t \/ exists tp cs0 cs1, (actual_lambda k r q tp < lam)%Q /\ inc_body k q sq iso tp cs0 = Ok (Cont t' cs1))).
-Proof. exact twt_stop. Qed.
+Proof. exact twt_stop_full. Qed.
+
+(* the same for a table in the canonical order of random_rule_table (corollary; first version of this file) *)
+Theorem C17_twt_preserves_canonical : forall t lam k r q sq iso cs t' l', 2 <= k -> map fst t = states k (2 * r + 1) ->
+  table_walk_through t lam k r q sq iso cs = Ok (Some (t', l')) ->
+  map fst t' = states k (2 * r + 1) /\
+  ((0 <= q < Z.of_nat k)%Z -> Forall (fun v => (0 <= v < Z.of_nat k)%Z) (map snd t) ->
+     Forall (fun v => (0 <= v < Z.of_nat k)%Z) (map snd t')) /\
+  (sq = true ->
+     (forall s, In s (map fst t) -> uniform s = true -> lookup s t = Some (Z.of_nat (hd 0 s))) ->
+     (forall s, In s (map fst t') -> uniform s = true -> lookup s t' = Some (Z.of_nat (hd 0 s)))) /\
+  (iso = true ->
+     (forall s, In s (map fst t) -> In (rev s) (map fst t) -> lookup (rev s) t = lookup s t) ->
+     (forall s, In s (map fst t') -> In (rev s) (map fst t') -> lookup (rev s) t' = lookup s t')).
+Proof. exact twt_preserves_canonical. Qed.
+
+(* doubles vs rationals: the code compares the double fl((K-c)/K) with the double target x, the model the
+   rational (K-c)/K with lam.  For every monotone rounding fl that fixes x, reading lam := exact value of x
+   gives the same three-way comparison whenever x is not the double of that grid point ... *)
+Theorem C17_double_reading_offgrid : forall (fl : Q -> Q), (forall a b, (a <= b)%Q -> (fl a <= fl b)%Q) ->
+  forall a x, (fl x == x)%Q -> ~ (fl a == x)%Q -> (a ?= x)%Q = (fl a ?= x)%Q.
+Proof. exact reading_offgrid. Qed.
+
+(* ... and when x = fl(b) for a grid point b = c0/K, reading lam := b is right as soon as fl is strictly
+   monotone on the two grid points compared (K < 2^52: neighbouring grid points are more than an ulp apart) *)
+Theorem C17_double_reading_ongrid : forall (fl : Q -> Q) a b,
+  ((a < b)%Q -> (fl a < fl b)%Q) -> ((b < a)%Q -> (fl b < fl a)%Q) -> (forall c d, (c == d)%Q -> (fl c == fl d)%Q) ->
+  (a ?= b)%Q = (fl a ?= fl b)%Q.
+Proof. exact reading_ongrid. Qed.
 
 (* the reported lambda is the returned table's lambda (any table, any k) *)
 Theorem C17_twt_lambda_true : forall t lam k r q sq iso cs t' l',
@@ -155,6 +194,25 @@ Proof.
   eexists; split; vm_compute; reflexivity.
 Qed.
 
+(* the example table of the docstrings, {'101': 1, '111': 0, '011': 0, '110': 1, '000': 0, '100': 0, '010': 0, '001': 1}:
+   NOT in canonical order, meets the hypotheses of the walk-through theorems, and is really walked (5/8 -> 3/8 -> ...) *)
+Definition doc_table : table :=
+  [([1;0;1], 1%Z); ([1;1;1], 0%Z); ([0;1;1], 0%Z); ([1;1;0], 1%Z); ([0;0;0], 0%Z); ([1;0;0], 0%Z); ([0;1;0], 0%Z); ([0;0;1], 1%Z)].
+
+Example C17_nonvacuous_any_order :
+  map fst doc_table <> states 2 3 /\ NoDup (map fst doc_table) /\
+  (forall s, In s (map fst doc_table) <-> (length s = 2 * 1 + 1 /\ Forall (fun d => d < 2) s)) /\
+  (exists t', table_walk_through doc_table (7 # 8)%Q 2 1 0%Z false true [3; 0; 1; 0; 2; 0] = Ok (Some (t', (7 # 8)%Q))
+     /\ map fst t' = map fst doc_table /\ t' <> doc_table).
+Proof.
+  split; [vm_compute; discriminate|].
+  assert (ND : NoDup (map fst doc_table)).
+  { cbn [doc_table map fst]. repeat (constructor; [simpl; intuition discriminate|]). constructor. }
+  split; [exact ND|]. split.
+  - intros s. rewrite <- (states_in 2 3 s) by (repeat constructor). vm_compute. tauto.
+  - eexists. split; [vm_compute; reflexivity|]. split; [vm_compute; reflexivity | vm_compute; discriminate].
+Qed.
+
 Example C17_nonvacuous_table_rule :
   table_rule [1; 0; 1] [([1; 0; 1], 7%Z)] = Ok 7%Z /\
   table_rule [10; 1] [([1; 0; 1], 7%Z)] = Ok 7%Z /\          (* multi-digit state rendered in decimal *)
@@ -169,11 +227,15 @@ Print Assumptions C17_rrt_range.
 Print Assumptions C17_rrt_strong_quiescence.
 Print Assumptions C17_rrt_isotropic.
 Print Assumptions C17_rrt_lambda_true.
+Print Assumptions C17_states_full_keys.
 Print Assumptions C17_twt_terminates.
 Print Assumptions C17_twt_preserves.
 Print Assumptions C17_twt_monotone.
 Print Assumptions C17_twt_step_monotone.
 Print Assumptions C17_twt_stop.
+Print Assumptions C17_twt_preserves_canonical.
+Print Assumptions C17_double_reading_offgrid.
+Print Assumptions C17_double_reading_ongrid.
 Print Assumptions C17_twt_lambda_true.
 Print Assumptions C17_table_rule_lookup.
 Print Assumptions C17_decimal_rendering.
